@@ -85,7 +85,7 @@ def run(rng: Rng, tier: str, index: int) -> RunResult:
             for k, v in vr.pick(S.EXTRA).items():
                 j[k] = v
             if vr.chance(0.5):
-                j["kid"] = "given-kid-%d" % variant
+                j["kid"] = vr.pick(["given-kid-%d" % variant, "given-kid-%d" % variant, "", "0", " "])
             items = list(j.items())
             vr.shuffle(items)
             jj = dict(items)
@@ -184,9 +184,12 @@ def run(rng: Rng, tier: str, index: int) -> RunResult:
                 res.case(label, "generate-auto-kid")
                 if g.kid != rk.thumbprint(S.material_of(g)):
                     viol("kid:auto-differs-from-thumbprint", "generate_key(auto_kid=True) kid %r != RFC 7638 thumbprint" % g.kid)
-                g2 = S.jose_cls(kind[0]).generate_key(size, {"kid": "mine"}, True, True)
-                if g2.kid != "mine":
-                    viol("kid:overwritten", "generate_key(auto_kid=True) replaced the given kid")
+                for given in ("mine", ""):
+                    g2 = S.jose_cls(kind[0]).generate_key(size, {"kid": given}, True, True)
+                    KeySet([g2])
+                    if g2.kid != given:
+                        viol("kid:overwritten", "generate_key(parameters={'kid': %r}, auto_kid=True) / KeySet() replaced the given kid by %r" % (given, g2.kid),
+                             {"rep": "generate-given-kid"})
         except Exception as e:
             viol("history:generate:failed", "%s: %s" % (type(e).__name__, e))
     res.events = tr.n
@@ -228,6 +231,18 @@ def replay(repro: dict):
         if blob is not None:
             reps.append(("reload-" + form, lambda cls, blob=blob, form=form: _reload(blob, form, cls)))
     from joserfc.jwk import KeySet
+    if repro.get("rep") == "generate-given-kid" or True:
+        for given in ("mine", ""):
+            try:
+                j = rk.to_jwk(material, True)
+                j["kid"] = given
+                kx = S.jose_cls(material.kty).import_key(j)
+                KeySet([kx])
+                kx.ensure_kid()
+                if kx.kid != given:
+                    out.append(("kid:overwritten", "given kid %r became %r" % (given, kx.kid)))
+            except Exception as e:
+                out.append(("representation:given-kid:failed", str(e)))
     if repro.get("rep") in ("shared-parameters", "generate_key_set"):
         shared = {"use": "sig"}
         m2 = S.gen_material(Rng("replay-shared"), (material.kty, material.crv if material.kty in ("EC", "OKP") else (2048 if material.kty == "RSA" else None)))
